@@ -36,12 +36,12 @@ func init() {
 		"Decides the structural clauses of 'load outcomes map to cache state and results as documented' on every enumerated path: the load installer's decision table over (own record, not-found, error) (C10.table); the record invariants of doCall/doBulkCall - a not-found mark always comes with the not-found error, an overwritten error resets the mark, volunteered keys are registered before the error epilogue (C10.inv); a record's value reaches an API result only after wait and under err == nil, hits insert the live node's value under the looked-up key, misses return (record.value, record.err) (C10.result); BulkGet dispatches at most once, only its own records, duplicates skipped before the lookup (C10.once). "+
 			"NOT decided: exact result maps for arbitrary loader shapes beyond these guards.",
 		[]string{"loaders are opaque user functions", "in-flight table atomicity (C15)"},
-		ruleC10TableC10, ruleC10Inv, ruleC10Distribute, ruleC10Finisher, ruleLoadLemma, ruleLoadOps, ruleBulkOps, ruleC08Finish, ruleC10WrapLoad)
+		ruleC10TableC10, ruleC10Inv, ruleC10Distribute, ruleC10Finisher, ruleLoadLemma, ruleLoadOps, ruleBulkOps, ruleC08Finish, ruleC10WrapLoad, ruleC10Adapter)
 	register("C11",
 		"Decides the structural clauses of refresh on every enumerated path: a hit returns the value cached at that moment and never loads inline (C11.old); a reload is scheduled only on the not-fresh edge and only inside an executor closure (C11.trigger); Reload gets the old value, Load is used for absent keys (C11.reloadarg); without refresh configured nothing is returned or scheduled, a manual refresh returns a capacity-1 channel and sends exactly one result on every non-panicking path, automatic refreshes send nothing (C11.chan); a failed reload keeps the entry and its expiry, a not-found reload of its own record removes it, a successful own reload installs (C10.table, C12.hook failure rows); an operation that writes nothing (SetIfAbsent on a live key, a cancelled compute) leaves the reload in flight, so its result still replaces the value (C09.clear). "+
 			"NOT decided: timing around the deadline and behaviour of asynchronous executors; one genuine defect is a known finding (bulk refresh leaves records in flight when a loader panic is re-raised).",
 		[]string{"the executor runs submitted closures", "loaders are opaque user functions"},
-		ruleLoadLemma, ruleLoadOps, ruleBulkOps, ruleC11ReloadArg, ruleC10TableC10, ruleC10Inv, ruleC10Distribute, ruleC10Finisher, ruleC12Hooks, ruleC09Clear, ruleC12Calc)
+		ruleLoadLemma, ruleLoadOps, ruleBulkOps, ruleC11ReloadArg, ruleC10TableC10, ruleC10Inv, ruleC10Distribute, ruleC10Finisher, ruleC12Hooks, ruleC09Clear, ruleC12Calc, ruleC10Adapter)
 }
 
 func init() {
